@@ -1,3 +1,3 @@
 SPECIFICATION Spec
-INVARIANTS EmitList EntriesIndependent UnsetTakesDefaultInList OptionStaysInItsEntry
+INVARIANTS EmitList EntriesIndependent ZeroHonouredInList UnsetTakesDefaultInList OptionStaysInItsEntry
 CHECK_DEADLOCK FALSE
